@@ -1053,7 +1053,7 @@ def make_edits(p, rng, per_kind, quota):
                     return q, s["i"]
                 add("wrong-type-reassign", ctx, th)
             if s["t"] == "return":
-                def th(s=s):
+                def th(s=s, ret=ret):
                     q, b, idx = apply(None)
                     idx[s["i"]]["e"] = wrong_lit(b, ret, rng) if ret != UNIT else E(b, "lit", l=("int", 1))
                     return q, s["i"]
